@@ -38,6 +38,11 @@ CHECKS = {
     note="Value semantics of arrays in the model: the real interpreter aliases on plain array assignment, which breaks the property for alias-then-element-write programs (known finding, generator avoids them, corpus entry reproduces it). CodeBuilder.assign's dispatch/parsing is exercised, not modelled. Functions are total and pure here (failing functions: C11). Structured if/else vs. flat guarded statements is the subject of C01.",
     technique="Lean 4 proof (invariant over the builder fold, commutation from frame conditions, insertion-sort scheduling lemma) over hand-written model; differential correspondence on the public builder API; schedule enumeration oracle on the real objects",
     ref="7/C02"),
+ "C20": dict(
+    text="Lean 4 theorems for EVERY line, level, width, marker and escape character over the model of split_outside_quotes + wrap_line_base + pad_python/pad_fortran: the lines' token lists concatenate to exactly the input tokens (nothing dropped, reordered or split); every token produced by the splitter is well-formed (tokenised alone it is one token with no quote open), so a quoted string - also one starting inside a word - never leaves its token; every line holding >= 2 tokens fits the width (continued lines strictly, their marker landing on the last column); joining the wrapped lines with markers removed and tokenising again yields exactly the input tokens (state-machine proof over the splitter); an unclosed quote is refused. Correspondence: exact output lines of the real Python and Fortran wrap_line on exhaustive short token sequences x widths x levels and on random lines with quoted strings glued to other text, escapes, doubled quotes, over-long tokens; oracle with an independent tokenizer and Python's ast (wrapped vs. unwrapped statement).",
+    note="The pinned tree used shlex.split(posix=False), which split and re-spaced string literals that start inside a word (component_id='a  b' came back as 'a             b'): repaired by a fix: commit introducing the quote-aware splitter that is modelled. 'Parses to the same syntax tree' is checked with CPython's ast on generated statements, not proved (Python's lexical grammar is not modelled); Fortran free-form continuation is represented by: non-final lines end in '&', no character literal is split.",
+    technique="Lean 4 proof (loop invariants over the chunking loop, state-machine invariant over the splitter) over hand-written model; exhaustive small-scope + random differential correspondence; independent tokenizer + ast oracle",
+    ref="7/C20"),
 }
 
 NOT_APPLICABLE = {}
